@@ -2351,6 +2351,7 @@ def _private_lists(fn):
         for c_ in ast.iter_child_nodes(p_):
             parents[c_] = p_
     verdict = {}
+    own_scope = {}
     for n in ast.walk(fn):
         if isinstance(n, ast.arg):
             verdict[n.arg] = False
@@ -2361,6 +2362,14 @@ def _private_lists(fn):
             continue
         p_ = parents.get(n)
         ok = False
+        # a list that a nested function or lambda can reach may be changed by calling that function
+        q_ = p_
+        scopes = 0
+        while q_ is not None and q_ is not fn:
+            if isinstance(q_, FuncTypes + (ast.Lambda,)):
+                scopes += 1
+            q_ = parents.get(q_)
+        own_scope.setdefault(n.id, set()).add(scopes)
         if isinstance(n.ctx, ast.Store):
             ok = isinstance(p_, ast.Assign) and len(p_.targets) == 1 and p_.targets[0] is n \
                 and isinstance(p_.value, (ast.List, ast.ListComp))
@@ -2393,7 +2402,7 @@ def _private_lists(fn):
                 ok = True
         if not ok:
             verdict[n.id] = False
-    return {k for k, v in verdict.items() if v}, parents
+    return {k for k, v in verdict.items() if v and len(own_scope.get(k, {0})) == 1}, parents
 
 
 def _private_list_flag(e, root):
